@@ -456,10 +456,13 @@ def recover_images(binary, image_dirs, keys_hex, nkeys, timeout_per=20, chunk=40
         for d in missing:
             # the chunk died or hung inside this image (or after it): run it alone
             g1, to1, rc1, err1 = run_chunk([d], timeout_per)
+            if d not in g1 and to1:
+                # a slow machine is not a hang: give it one generous retry before calling it one
+                g1, to1, rc1, err1 = run_chunk([d], timeout_per * 6)
             if d in g1:
                 got[d] = g1[d]
             elif to1:
-                got[d] = {"dir": d, "ok": False, "err": "hang: recovery did not finish within %ds" % timeout_per, "m": []}
+                got[d] = {"dir": d, "ok": False, "err": "hang: recovery did not finish within %ds" % (timeout_per * 6), "m": []}
             else:
                 got[d] = {"dir": d, "ok": False, "err": "recovery process died rc=%s: %s" % (rc1, _first_panic(err1)), "m": []}
         return got
